@@ -284,3 +284,13 @@ func ruleRing(rule string, minInstances int, why string) func(*Ctx) {
 		c.floor(rule, n, minInstances)
 	}
 }
+
+// ordered returns the loop's blocks in function order (deterministic iteration).
+func (l *loopInfo) ordered() []*ssa.BasicBlock {
+	var out []*ssa.BasicBlock
+	for b := range l.blocks {
+		out = append(out, b)
+	}
+	sort.Slice(out, func(i, j int) bool { return out[i].Index < out[j].Index })
+	return out
+}
